@@ -549,6 +549,25 @@ def special_ack():
                        N(eq(f(('bvnot', None, (f(x),))), y)))),
         eq(f(('ite', None, (eq(f(x), y), x, y))), x),
     ]
+    # several function symbols, some applied once only, in every position
+    # relative to the one whose consistency decides the verdict
+    h = lambda a: B.App('h', FB, (a,))
+    k = lambda a: B.App('k', FB, (a,))
+    core = [eq(x, y), N(eq(f(x), f(y)))]
+    for once in ([eq(h(x), z)], [eq(h(z), z), eq(k(y), x)],
+                 [eq(h(k(x)), z)], [eq(h(f(x)), z)]):
+        for pos in range(3):
+            cj = list(core)
+            for o in once:
+                cj.insert(pos, o)
+            out.append(('and', None, tuple(cj)))
+            out.append(('not', None, (('or', None, tuple(
+                N(c) for c in cj)),)))
+    out.append(('and', None, (eq(x, y), N(eq(f(h(x)), f(h(y)))))))
+    out.append(('and', None, (eq(h(x), h(y)), N(eq(f(h(x)), f(h(y)))),
+                              eq(k(x), z))))
+    out.append(('and', None, (eq(k(x), z), eq(x, y),
+                              N(eq(h(f(x)), h(f(y)))))))
     return out
 
 
